@@ -28,7 +28,10 @@ WantAll(cells, i) == IF i > Len(cells) THEN <<>> ELSE <<[bin |-> cells[i].bin, l
 SeqViols(e) ==
     LET n == Len(e.cells)
         want == WantAll(e.cells, 1)
-        enc(i) == LET c == e.cells[i] w == e.wire[i] IN
+        \* (a writer that panicked left nothing behind for some cells: that is a breach, not a reason to stop judging)
+        enc(i) == IF i > Len(e.wire) \/ i > Len(e.concatOk) \/ i > Len(e.werrs)
+                  THEN <<[clause |-> "wire_not_one_exact_frame", cell |-> e.cells[i], frames |-> 0, prop |-> "C14"]>> ELSE
+                  LET c == e.cells[i] w == e.wire[i] IN
                   IF Len(w) = 1 /\ ~w[1].short /\ w[1].hdr = Header(c.bin, Total(c)) /\ w[1].len = Total(c) /\ e.concatOk[i]
                      /\ e.werrs[i] = ""
                   THEN <<>>
@@ -46,7 +49,8 @@ SeqViols(e) ==
 
 SeqNonconf(e) ==
     LET n == Len(e.cells)
-        bad(i) == LET c == e.cells[i]
+        bad(i) == i > Len(e.wire) \/
+                  LET c == e.cells[i]
                       f == FramesOf(c, c.geom, 2 * (c.geom + 9))
                       w == e.wire[i]
                   IN ~(Len(w) = Len(f) /\ \A j \in 1..Len(f) : w[j].hdr = WireHeader(f[j]) /\ w[j].len = f[j].len)
@@ -111,7 +115,9 @@ RdEval(ops, i, st, F, limit) ==
 
 RdViols(e) ==
     LET raw == IF e.errAt >= 0 /\ e.errAt < Len(e.raw) THEN SubSeq(e.raw, 1, e.errAt) ELSE e.raw
-        F == ParseRaw(raw, 1)
+        \* a long stream is recorded by its head and its length
+        total == IF e.errAt >= 0 /\ e.errAt < e.rawLen THEN e.errAt ELSE e.rawLen
+        F == IF e.rawLen > Len(e.raw) THEN ParseRawT(raw, 1, total) ELSE ParseRaw(raw, 1)
         st0 == [fi |-> 0, consumed |-> 0, failed |-> "", active |-> FALSE]
         cl == RdEval(e.ops, 1, st0, F, e.limit)
         wf == e.errAt < 0 /\ \A k \in 1..Len(F) : F[k].complete /\ ~Declared(F[k].hdr).neg /\ ~Declared(F[k].hdr).huge
